@@ -169,6 +169,9 @@ func checkC02(e *Env) {
 			}
 		}
 	})
+	// the concurrent flavour of this monitor (C12 is the full treatment)
+	concCalls := e.concurrentSmoke(drv, "C02", e.smokePool("C02", "chk"), e.pick(2, 12), e.pick(300, 1500))
+
 	possible := 0
 	for range ref.Names {
 		possible += 23 * 2048
@@ -177,11 +180,12 @@ func checkC02(e *Env) {
 		fatalInconclusive("C02: no NewMnemonic output was observed")
 	}
 	e.WriteEvidence("exploration", map[string]any{
-		"evaluations":         stats.Ops,
-		"distinct_nontrivial": dist.Len(),
-		"rule":                "a case is one generate->check pair: (a) NewMnemonicByEntropy output fed straight into CheckMnemonic and IsMnemonicValid in the child, (b) the reference encoder's sentence for the same entropy (valid by construction, whatever the generator does), (a') a mnemonic held while another one is generated and validated afterwards, (c) NewMnemonic output from the default source and from scripted sources (zero-leading, all-zero, all-ones among them); every case is non-trivial (acceptance is required); distinct = distinct (kind, entropy or sentence, language)",
-		"samples":             smp.List(),
-		"pairs_by_kind":       kinds.Map(),
+		"evaluations":                      stats.Ops,
+		"distinct_nontrivial":              dist.Len(),
+		"calls_repeated_under_concurrency": concCalls,
+		"rule":                             "a case is one generate->check pair: (a) NewMnemonicByEntropy output fed straight into CheckMnemonic and IsMnemonicValid in the child, (b) the reference encoder's sentence for the same entropy (valid by construction, whatever the generator does), (a') a mnemonic held while another one is generated and validated afterwards, (c) NewMnemonic output from the default source and from scripted sources (zero-leading, all-zero, all-ones among them); every case is non-trivial (acceptance is required); distinct = distinct (kind, entropy or sentence, language)",
+		"samples":                          smp.List(),
+		"pairs_by_kind":                    kinds.Map(),
 		"leading_zero_byte_histogram_of_own_pairs": lz.Map(),
 		"corpus_classes":                           classes.Map(),
 		"language_position_word_accepted":          posWordCount,
